@@ -1138,12 +1138,7 @@ func (x *Exec) invoke(st *State, recv *Term, m *types.Func, args []*Term, recvTy
 	default:
 		rs = c.tupleSort(sig.Results())
 	}
-	name := "m_" + m.Name()
-	for _, a := range args {
-		name += "_" + shortName(a.Sort.Name)
-	}
-	name += "__" + shortName(rs.Name)
-	r := c.App(name, rs, append([]*Term{recv}, args...)...)
+	r := c.App(methodSym(m.Name(), args, rs), rs, append([]*Term{recv}, args...)...)
 	var inv *Term
 	switch sig.Results().Len() {
 	case 0:
@@ -1191,6 +1186,14 @@ func (x *Exec) external(st *State, fn *ssa.Function, args []*Term) []Outcome {
 	}
 	x.assumeFact(st, inv)
 	return []Outcome{{st: st, kind: ORet, val: r}}
+}
+
+func methodSym(name string, args []*Term, rs *Sort) string {
+	n := "m_" + name
+	for _, a := range args {
+		n += "_" + shortName(a.Sort.Name)
+	}
+	return n + "__" + shortName(rs.Name)
 }
 
 func (x *Exec) toInt(v *Term) *Term {
